@@ -43,6 +43,12 @@ fn scenario(seed: u64, i: usize, big: bool) -> Scenario {
     proto.closure = rng.chance(1, 2);
     proto.nak_immediate = rng.chance(1, 2);
     sc.ents = vec![proto.clone(), proto.clone(), proto.clone(), Ent { real: false, ..proto.clone() }];
+    // in a quarter of the runs the users' indication channels are tiny and one node (user included)
+    // stalls for a while in the middle of the traffic: reports queue up, none may be lost
+    if rng.chance(1, 4) {
+        sc.ind_cap = *rng.pick(&[1usize, 2, 4]);
+        sc.script.push(Entry::Stall { ent: rng.usize_below(3), at: Trigger::At(*rng.pick(&[0u64, 1000, 2000, 10_000, 300_000])), us: rng.range(200_000, 1_500_000) });
+    }
     for (k, e) in sc.ents.iter_mut().enumerate() {
         e.seq0 = [0u64, 10, 200, 0][k];
     }
